@@ -256,6 +256,12 @@ func RunCase(seed uint64, idx int, p *Profile, o *Opts, st *Stats) (cr *CaseResu
 			// to leave entities, components and relations alone: the library may have created an empty archetype.)
 			statsBefore = RenderStats(d.W.Stats())
 		}
+		var archBefore map[string]ArchFigures
+		if x.Panic && op.K == KMisuse && d.StatsInCb && statsBefore == "" {
+			// a call rejected for its arguments leaves entities, components and relations alone (C10), so what Stats()
+			// says about every archetype that exists must stay as it is (C19); the library may add an empty archetype
+			archBefore = ArchetypeFigures(d.W.Stats())
+		}
 		res := d.Exec(op, x, i)
 		var resB Result
 		if twin != nil {
@@ -318,6 +324,17 @@ func RunCase(seed uint64, idx int, p *Profile, o *Opts, st *Stats) (cr *CaseResu
 				d.viol("C10", "misuse-effect", "after rejected %s: Stats().Entities.Used=%d, model alive %d", MisuseTable[op.Slot].Name, used, m.NAlive)
 			} else if after := RenderStats(sa); statsBefore != "" && after != statsBefore {
 				d.viol("C07", "locked-call-effect", "rejected %s changed what Stats() reports:\n--- before\n%s--- after\n%s", MisuseTable[op.Slot].Name, statsBefore, after)
+			}
+			if archBefore != nil {
+				st.RejectedStatsCmp++
+				after := ArchetypeFigures(sa)
+				for k, b := range archBefore {
+					a, ok := after[k]
+					if !ok || a.Size != b.Size || a.Used != b.Used || a.NonEmpty != b.NonEmpty || a.Tables < b.Tables || a.Capacity < b.Capacity || a.Memory < b.Memory {
+						d.viol("C19", "rejected-call-stats", "rejected %s changed the statistics of the existing archetype %s: before %+v, after %+v (present=%v)", MisuseTable[op.Slot].Name, k, b, a, ok)
+						break
+					}
+				}
 			}
 		}
 		if !stop {
